@@ -170,6 +170,54 @@ def run (d : Dev) (cs : List Chg) : Dev × Option (Nat × String) := runFrom 0 d
 def exec (d : Dev) (cs : List Chg) : Option Dev :=
   cs.foldlM (fun d c => match exec1 d c with | .ok d' => some d' | .error _ => none) d
 
+/-! ## Configuration mode of the device, syntactically (C08: sub-commands inside their parent's mode) -/
+
+/-- The device's mode after a command: the last mode line, `exit` and every other top-level command
+leave the sub-mode, sub-commands keep it. -/
+def trackMode (dm : Option Mode) : Chg → Option Mode
+  | .exit => none
+  | .aclMode n => some (.acl n)
+  | .intfMode n => some (.intf n)
+  | c => if isEntryCmd c || isBindCmd c then dm else none
+
+/-- A list of commands annotated with the parent each sub-command was emitted for: every
+sub-command arrives while the device is in its parent's mode, `exit` only inside a sub-mode. -/
+def inModes : Option Mode → List (Option Mode × Chg) → Bool
+  | _, [] => true
+  | dm, (par, c) :: rest =>
+    (match par with
+     | some p => dm == some p
+     | none => true) &&
+    (c != .exit || dm.isSome) && inModes (trackMode dm c) rest
+
+/-! ## Mode-free semantics of emission events -/
+
+def strip (d : Dev) : Dev := { d with mode := none }
+
+def ensureAcl (d : Dev) (n : Name) : Dev := if hasAcl d n then d else { d with acls := d.acls ++ [(n, [])] }
+
+def toOpt {α : Type} : Except String α → Option α
+  | .ok a => some a
+  | .error _ => none
+
+/-- What an event does to the device, whatever mode the device is in. -/
+def evRun (d : Dev) : Ev → Option Dev
+  | .top c => (toOpt (execTop d c)).map strip
+  | .openAcl n => some (strip (ensureAcl d n))
+  | .sub (.acl n) c =>
+    if isEntryCmd c then (toOpt (execEntry (entriesOf (ensureAcl d n) n) c)).map fun es => strip (setAcl (ensureAcl d n) n es)
+    else none
+  | .sub (.intf i) c =>
+    if !hasIntf d i then none else
+    match c with
+    | .bind a dir => if hasAcl d a then some (strip (setSlot d i dir (some a))) else none
+    | .noBind a dir => if slotOf d i dir == some a then some (strip (setSlot d i dir none)) else none
+    | _ => none
+  | .reset => some (strip d)
+  | .exitTop c => (toOpt (execTop d c)).map strip
+
+def evsRun (d : Dev) (evs : List Ev) : Option Dev := evs.foldlM evRun d
+
 /-! ## State dump (compared with dev.go on every case) -/
 
 def dump (d : Dev) : String :=
